@@ -20,18 +20,26 @@ def encList (l : List String) : String := if l.isEmpty then "-" else ",".interca
 
 def parseCreds (s : String) : Option Creds :=
   (decList s).foldlM (init := ({} : Creds)) fun c w =>
-    if w = "pw" then some { c with password := true }
-    else if w = "fbt" then some { c with fbToken := true }
-    else if w = "fba" then some { c with fbAppId := true }
-    else if w = "goo" then some { c with google := true }
-    else if w = "wl" then some { c with windowsLive := true }
+    if w = "pw" then some { c with password := .nonEmpty }
+    else if w = "pw0" then some { c with password := .empty }
+    else if w = "fbt" then some { c with fbToken := .nonEmpty }
+    else if w = "fbt0" then some { c with fbToken := .empty }
+    else if w = "fba" then some { c with fbAppId := .nonEmpty }
+    else if w = "fba0" then some { c with fbAppId := .empty }
+    else if w = "goo" then some { c with google := .nonEmpty }
+    else if w = "goo0" then some { c with google := .empty }
+    else if w = "wl" then some { c with windowsLive := .nonEmpty }
+    else if w = "wl0" then some { c with windowsLive := .empty }
     else match w.splitOn "=" with
       | ["ht", v] =>
+        -- optional third component: state of the token's secret string (s0 = empty, sn = null); not looked at by the code
         match v.splitOn ":" with
-        | [h, cb] =>
-          match h.toNat?, cbOfCxx cb with
-          | some h, some cb => some { c with htToken := some (h, cb) }
-          | _, _ => none
+        | h :: cb :: rest =>
+          if rest = [] ∨ rest = ["s0"] ∨ rest = ["sn"] then
+            match h.toNat?, cbOfCxx cb with
+            | some h, some cb => some { c with htToken := some (h, cb) }
+            | _, _ => none
+          else none
         | _ => none
       | _ => none
 
